@@ -122,6 +122,8 @@ def ensure_facts(repo=REPO, force=False, fresh_target=False, cold=False):
             if r.returncode != 0:
                 sys.stderr.write(r.stdout[-6000:])
                 raise SystemExit("tsgfacts: `cargo +nightly check` of %s failed; no facts, no verdict" % repo)
+            if source_hash(repo) != sha:
+                raise SystemExit("tsgfacts: the sources of %s changed while they were being analysed; no facts, no verdict" % repo)
             import json
             for name in ("tree_sitter_graph-lib.json", "tree_sitter_graph-bin.json"):
                 p = os.path.join(tmp_out, name)
@@ -146,10 +148,10 @@ def ensure_facts(repo=REPO, force=False, fresh_target=False, cold=False):
                 shutil.rmtree(scratch_target, ignore_errors=True)
             if os.path.isdir(tmp_out):
                 shutil.rmtree(tmp_out, ignore_errors=True)
-        # keep the cache small: drop all but the 6 most recent fact sets
+        # keep the cache small: drop all but the 24 most recent fact sets
         base = os.path.join(CACHE, "facts")
         sets = sorted((os.path.getmtime(os.path.join(base, d)), d) for d in os.listdir(base)
                       if not d.startswith("tmp-"))
-        for _m, d in sets[:-6]:
+        for _m, d in sets[:-24]:
             shutil.rmtree(os.path.join(base, d), ignore_errors=True)
         return facts_dir, {"cached": False, "sha256": sha, "extract_s": round(time.time() - t0, 2)}
